@@ -1569,6 +1569,9 @@ func loopEnum(args []string, w *bufio.Writer) {
 	for _, kind := range []string{"fifo", "tcp"} {
 		emit("obj 1 "+kind, "read 1 8 op=11", "pending", "sabotage 1", "write 1 8 op=12", "pending", "close 1", "pending", "obj 2 timer", "sched 2 once 1 op=13", "runpending", "pending")
 		emit("obj 1 "+kind, "sabotage 1", "read 1 8 op=11", "write 1 8 op=12", "pending", "cancel 1", "pending", "close 1", "pending")
+		// de-registration fails (the kernel no longer knows the descriptor): the operation is over all the same
+		emit("obj 1 "+kind, "read 1 8 op=11", "sabotage 1", "cancel 1", "pending", "cancel 1", "pending", "close 1", "cancel 1", "pending", "poll", "pending")
+		emit("obj 1 "+kind, "read 1 8 op=11", "sabotage 1", "close 1", "pending", "cancel 1", "poll", "pending")
 	}
 	emit("obj 1 listener", "obj 2 tcp", "prog 12 close 1", "prog 11 close 2", "accept 1 op=11", "read 2 4 op=12", "peer 1 connect", "peer 2 write 4", "poll", "pending", "poll", "pending")
 	emit("obj 1 packet", "obj 2 tcp", "prog 12 close 1", "prog 11 close 2", "recvfrom 1 16 op=11", "read 2 4 op=12", "peer 1 send 8", "peer 2 write 4", "poll", "pending", "poll", "pending")
